@@ -380,14 +380,14 @@ def helper_tables():
             raise TranslatorError("derived type %s for %s not found/parsable: %r" % (fn, label, ft))
         cf = []
         for f in cs:
-            alen = ip._extent(f["array"]) if f.get("array") else 0
+            alen = ip.dims_list(f["array"]) if f.get("array") else []
             if alen is None:
                 raise TranslatorError("array extent of %s.%s" % (cn, f["name"]))
             b = f["base"]
             cf.append((CB[b[0]], cid(b[1]) if b[0] == "struct" else b[1], f["ptr"], alen))
         ff = []
         for nm, d in ft["fields"]:
-            alen = ip._extent(d["extent"].split(",")) if d["shape"] == "array" else 0
+            alen = ip.dims_list(d["extent"].split(",")) if d["shape"] == "array" else []
             if alen is None or d["shape"] == "desc" or d["value"]:
                 raise TranslatorError("component %s%%%s is not a plain interoperable component" % (fn, nm))
             b = d["base"]
@@ -500,8 +500,8 @@ def render(data):
     L.append("]")
     L.append("def typemapNames : List String := [" + ", ".join('"%s"' % r[0] for r in data["typemap"]) + "]")
     L.append("")
-    L.append("/-- (bind(C) flag, C fields (class, bytes|struct id, pointer depth, array length), Fortran components (class, bytes|type id, array length)) -/")
-    L.append("def structPairs : List (Nat × List (Nat × Nat × Nat × Nat) × List (Nat × Nat × Nat)) := [")
+    L.append("/-- (bind(C) flag, C fields (class, bytes|struct id, pointer depth, extents in C order), Fortran components (class, bytes|type id, extents in Fortran order)) -/")
+    L.append("def structPairs : List (Nat × List (Nat × Nat × Nat × List Nat) × List (Nat × Nat × List Nat)) := [")
     L.append(",\n".join("  (%d, [%s], [%s])" % (b, ", ".join(_tup(x) for x in cf), ", ".join(_tup(x) for x in ff))
                         for _n, b, cf, ff in data["structs"]))
     L.append("]")
